@@ -82,7 +82,46 @@ def progress_analysis(repo) -> List[Dict[str, Any]]:
                 return True
         return False
 
-    def walk(fn, block, blocks, idxs, in_loop):
+    # token sets defined at module level as TokenSet(TOKEN_TYPES.A | TOKEN_TYPES.B ...)
+    set_members: Dict[str, set] = {}
+    for n in tree.body:
+        tgt = n.targets[0] if isinstance(n, ast.Assign) else (n.target if isinstance(n, ast.AnnAssign) else None)
+        val = getattr(n, "value", None)
+        if isinstance(tgt, ast.Name) and isinstance(val, ast.Call) and isinstance(val.func, ast.Name) and val.func.id == "TokenSet" and len(val.args) == 1:
+            names = [a.attr for a in ast.walk(val.args[0]) if isinstance(a, ast.Attribute) and isinstance(a.value, ast.Name) and a.value.id == "TOKEN_TYPES"]
+            only_or = all(isinstance(a, (ast.BinOp, ast.BitOr, ast.Attribute, ast.Name, ast.Load)) for a in ast.walk(val.args[0]))
+            if names and only_or:
+                set_members[tgt.id] = set(names)
+    NESTING = {"OpenParen", "Exponent"}
+
+    def consumed_kinds(st, guards):
+        """Token kinds that the consumption statement `st` may eat (None = unknown)."""
+        v = st.value if isinstance(st, (ast.Expr, ast.Assign)) else None
+        if not (_self_call(v, {"eat"}) and len(v.args) == 1):
+            return None
+        a = v.args[0]
+        if isinstance(a, ast.Attribute) and isinstance(a.value, ast.Name) and a.value.id == "TOKEN_TYPES":
+            return {a.attr}
+        # eat(<type of the current token>) under a guard `self.check(_SET)`
+        for g in reversed(guards):
+            t = g.test
+            if isinstance(t, ast.UnaryOp):
+                continue
+            if _self_call(t, {"check"}) and t.args and isinstance(t.args[0], ast.Name) and t.args[0].id in set_members:
+                return set_members[t.args[0].id]
+        return None
+
+    def nesting_only(path_blocks, idx_chain, guards) -> Any:
+        """The nearest dominating consumption before the call eats a token that opens a nested
+        scope ('(' or '^'): the stack then grows with the nesting of the input, not with its length."""
+        for block, idx in reversed(list(zip(path_blocks, idx_chain))):
+            for s in reversed(block[:idx]):
+                if _consumes(s):
+                    k = consumed_kinds(s, guards)
+                    return (k is not None and k <= NESTING), (sorted(k) if k else "unknown")
+        return False, "none"
+
+    def walk(fn, block, blocks, idxs, in_loop, guards=()):
         for i, st in enumerate(block):
             b2, i2 = blocks + [block], idxs + [i]
             # calls in this statement
@@ -93,6 +132,9 @@ def progress_analysis(repo) -> List[Dict[str, Any]]:
                     if not descending:
                         ok = dominated(b2, i2)
                         out.append({"clause": f"progress/{fn.name}:{n.lineno}-call-to-{callee}-is-preceded-by-a-consumption", "ok": ok, "detail": "" if ok else "non-descending call without a token consumed first"})
+                        ok2, kinds = nesting_only(b2, i2, list(guards))
+                        out.append({"clause": f"stack/{fn.name}-recursion-into-{callee}-only-after-a-nesting-token", "ok": ok2,
+                                    "detail": "" if ok2 else f"line {n.lineno}: the call re-enters the grammar at the same or a higher level after consuming {kinds}: the stack grows with the LENGTH of a flat operator chain (RecursionError for inputs of bounded nesting)"})
             if isinstance(st, ast.While):
                 # every path through the body consumes: the body contains an unconditional consumption
                 # at its top level, or consists of branches each of which consumes or leaves the loop
@@ -100,15 +142,39 @@ def progress_analysis(repo) -> List[Dict[str, Any]]:
                 if fn.name == "parse_factors" and "factors" in test_src and "len" in test_src:
                     # list-driven loop: its termination is the variant obligation of factors_path
                     out.append({"clause": f"progress/{fn.name}:{st.lineno}-list-driven-loop-has-a-variant-obligation", "ok": True, "detail": ""})
+                elif _list_driven(st):
+                    out.append({"clause": f"progress/{fn.name}:{st.lineno}-list-driven-loop-shrinks-its-list-every-iteration", "ok": True, "detail": ""})
                 else:
                     ok = _loop_body_consumes(st.body)
                     out.append({"clause": f"progress/{fn.name}:{st.lineno}-every-iteration-consumes-a-token", "ok": ok, "detail": "" if ok else "an iteration may not consume any token"})
-                walk(fn, st.body, b2, i2, True)
+                walk(fn, st.body, b2, i2, True, tuple(guards) + (st,))
             elif isinstance(st, ast.If):
-                walk(fn, st.body, b2, i2, in_loop)
-                walk(fn, st.orelse, b2, i2, in_loop)
+                walk(fn, st.body, b2, i2, in_loop, tuple(guards) + (st,))
+                walk(fn, st.orelse, b2, i2, in_loop, guards)
             elif isinstance(st, ast.For):
-                walk(fn, st.body, b2, i2, True)
+                walk(fn, st.body, b2, i2, True, guards)
+
+    def _list_driven(st) -> bool:
+        """`while xs:` / `while len(xs) > k:` over a local list, whose body pops from xs at its top
+        level on every iteration and never adds to it: variant len(xs)."""
+        t = st.test
+        name = None
+        if isinstance(t, ast.Name):
+            name = t.id
+        elif isinstance(t, ast.Compare) and isinstance(t.left, ast.Call) and isinstance(t.left.func, ast.Name) and t.left.func.id == "len" and t.left.args and isinstance(t.left.args[0], ast.Name):
+            if len(t.ops) == 1 and isinstance(t.ops[0], (ast.Gt, ast.GtE, ast.NotEq)) and isinstance(t.comparators[0], ast.Constant):
+                name = t.left.args[0].id
+        if name is None:
+            return False
+
+        def is_method(n, meths):
+            return isinstance(n, ast.Call) and isinstance(n.func, ast.Attribute) and isinstance(n.func.value, ast.Name) and n.func.value.id == name and n.func.attr in meths
+
+        pops = any(isinstance(b, (ast.Expr, ast.Assign)) and any(is_method(n, {"pop"}) for n in ast.walk(b.value)) for b in st.body)
+        grows = any(is_method(n, {"append", "insert", "extend"}) or (isinstance(n, (ast.Assign, ast.AugAssign)) and any(isinstance(x, ast.Name) and x.id == name for x in ast.walk(n.targets[0] if isinstance(n, ast.Assign) else n.target)))
+                    for b in st.body for n in ast.walk(b))
+        leaves = any(isinstance(n, ast.Continue) for b in st.body for n in ast.walk(b))
+        return pops and not grows and not leaves
 
     def _loop_body_consumes(body) -> bool:
         for st in body:
@@ -227,11 +293,12 @@ def stream_path(I: Interp, ps: PathState, meth: str) -> Dict[str, Any]:
 class Counted:
     """The `factors` list with a symbolic number of (opaque) elements."""
 
-    def __init__(self, ps, n):
-        self.ps, self.n = ps, n
+    def __init__(self, ps, n, name="factors", elem=None):
+        self.ps, self.n, self.name = ps, n, name
+        self.elem = elem or (lambda I: I.new_obj(["VariableExpression"], label="factor"))
 
     def _need(self, I, what):
-        if not I.ps.decide(self.n > 0, "factors-nonempty"):
+        if not I.ps.decide(self.n > 0, f"{self.name}-nonempty"):
             I.raise_("IndexError", "list index out of range", implicit=True, site=what)
 
     def method(self, I, name, args, kw):
@@ -239,23 +306,23 @@ class Counted:
             self.n = self.n + 1
             return None
         if name == "pop":
-            self._need(I, "factors.pop")
+            self._need(I, f"{self.name}.pop")
             self.n = self.n - 1
-            return I.new_obj(["VariableExpression"], label="factor")
-        raise OutOfSubset(f"factors.{name}")
+            return self.elem(I)
+        raise OutOfSubset(f"{self.name}.{name}")
 
     def getitem(self, I, idx):
-        self._need(I, "factors[]")
-        return I.new_obj(["VariableExpression"], label="factor")
+        self._need(I, f"{self.name}[]")
+        return self.elem(I)
 
     def setitem(self, I, idx, v):
-        self._need(I, "factors[]=")
+        self._need(I, f"{self.name}[]=")
 
     def length(self, I):
         return Num(self.n)
 
     def truth(self, I):
-        return I.ps.decide(self.n > 0, "factors-truth")
+        return I.ps.decide(self.n > 0, f"{self.name}-truth")
 
 
 def factors_path(I: Interp, ps: PathState) -> Dict[str, Any]:
@@ -351,6 +418,117 @@ def factors_path(I: Interp, ps: PathState) -> Dict[str, Any]:
     return {"obligations": obl, "labels": list(ps.labels)}
 
 
+def mult_path(I: Interp, ps: PathState) -> Dict[str, Any]:
+    """parse_mult keeps the chain in two local lists.  Sidecar loop invariants, for ANY chain length:
+    collecting loop  INV1: len(operands) == len(operators) + 1;
+    nesting loop     INV2: len(operands) == len(operators)   (after the first pop).
+    Obligations: INV1 holds on entry and after a generic iteration; the code between the loops is
+    safe under INV1 and establishes INV2; a generic iteration of the second loop pops only from
+    non-empty lists and preserves INV2; raising paths raise documented exceptions only.
+    A parse_mult without local lists (recursive form) has nothing to index: one trivial obligation."""
+    I.ps = ps
+    I.call_depth = 0
+    I.classes["BinaryTreeNode"].attrs["_idCounter"] = 0
+    obl = []
+
+    def ob(clause, ok, detail=""):
+        obl.append({"clause": f"ExpressionParser.parse_mult/{clause}", "ok": bool(ok), "detail": detail if not ok else ""})
+
+    fv = I.get_func("mathy_core.parser", "ExpressionParser.parse_mult")
+    body = [st for st in fv.node.body if not (isinstance(st, ast.Expr) and isinstance(st.value, ast.Constant))]
+    lists = [st.targets[0].id for st in body if isinstance(st, ast.Assign) and isinstance(st.value, ast.List) and isinstance(st.targets[0], ast.Name)]
+    uses_index = any(isinstance(n, ast.Subscript) or (isinstance(n, ast.Call) and isinstance(n.func, ast.Attribute) and n.func.attr == "pop") for n in ast.walk(fv.node))
+    if not lists:
+        ob("no-local-list-is-indexed", not uses_index, "pop / subscript without a recognised local list")
+        return {"obligations": obl, "labels": list(ps.labels)}
+    loops = [i for i, st in enumerate(body) if isinstance(st, ast.While)]
+    if len(loops) != 2 or len(lists) != 2:
+        raise OutOfSubset("parse_mult: expected two local lists and two while loops")
+    l1, l2 = loops
+    tt = {k: v for k, v in I.classes["TOKEN_TYPES"].attrs.items() if isinstance(v, int)}
+    parser = I.new_obj(["ExpressionParser"], label="parser")
+    cur = I.new_obj(["Token"], label="current")
+    cur.cur["type"] = Num(z3.Int("cur_type"))
+    cur.cur["value"] = "*"
+    parser.cur["current_token"] = cur
+    parser.cur["_all_tokens"] = ListObj([])
+    env = Env(parent=fv.env)
+    env.vars.update({"self": parser, "__owner__": fv.owner})
+
+    def stub(result):
+        def c(I2, args, kw, f):
+            return result(I2)
+
+        return c
+
+    saved = dict(I.contracts)
+    I.contracts["ExpressionParser.eat"] = stub(lambda I2: True)
+    I.contracts["ExpressionParser.parse_exponent"] = stub(lambda I2: I2.new_obj(["PowerExpression"], label="operand"))
+    I.contracts["ExpressionParser.parse_mult"] = stub(lambda I2: I2.new_obj(["MultiplyExpression"], label="rest"))
+    I.contracts["ExpressionParser.check"] = stub(lambda I2: I2.ps.decide(z3.Bool(f"check{I2.ps.next_sym}") if not setattr(I2.ps, "next_sym", I2.ps.next_sym + 1) else False, "check"))
+    try:
+        phase = ["init", "collect-step", "between", "nest-step"][ps.choose(4, "phase")]
+        for st in body[:l1]:
+            I.exec_stmt(st, env)
+        # which list is the longer one: decided by the lengths on entry
+        lens = {}
+        for nm in lists:
+            v = env.vars.get(nm)
+            lens[nm] = len(v.items) if isinstance(v, ListObj) else None
+        if sorted(lens.values(), key=str) != [0, 1]:
+            raise OutOfSubset(f"parse_mult: lists start with lengths {lens}")
+        longer = next(nm for nm in lists if lens[nm] == 1)
+        shorter = next(nm for nm in lists if lens[nm] == 0)
+        if phase == "init":
+            ob("INV1-on-entry (one operand more than operators)", True)
+            return {"obligations": obl, "labels": list(ps.labels)}
+        k = z3.Int("k")
+        ps.assume(k >= 0)
+        A = Counted(ps, k + 1, longer, lambda I2: I2.new_obj(["PowerExpression"], label="operand"))
+        B = Counted(ps, k, shorter, lambda I2: Num(z3.Int(f"op{I2.ps.next_sym}")))
+        env.vars[longer], env.vars[shorter] = A, B
+        if phase == "collect-step":
+            try:
+                I.exec_block(body[l1].body, env)
+                ob("collect-step/INV1-preserved", prove(ps.pc, [], A.n == B.n + 1, timeout_ms=5000).status == "proved", f"{A.n} vs {B.n}")
+                ob("collect-step/lists-only-grow", prove(ps.pc, [], z3.And(A.n >= k + 1, B.n >= k), timeout_ms=5000).status == "proved", "")
+            except PyRaise as pr:
+                ob("collect-step/raises-only-parse-exceptions", not pr.implicit and pr.exc.clsname in ALLOWED, f"{pr.exc.clsname} at {pr.site}")
+            return {"obligations": obl, "labels": list(ps.labels)}
+        if phase == "between":
+            try:
+                for st in body[l1 + 1 : l2]:
+                    I.exec_stmt(st, env)
+                ob("between/no-internal-error", True)
+                ob("between/INV2-established", prove(ps.pc, [], A.n == B.n, timeout_ms=5000).status == "proved", f"{A.n} vs {B.n}")
+            except PyRaise as pr:
+                ob("between/no-internal-error", not pr.implicit and pr.exc.clsname in ALLOWED, f"{pr.exc.clsname} at {pr.site}")
+            return {"obligations": obl, "labels": list(ps.labels)}
+        # generic iteration of the nesting loop under INV2
+        A.n, B.n = k, k
+        env.vars["exp"] = I.new_obj(["PowerExpression"], label="acc")
+        try:
+            more = I.truth(I.eval(body[l2].test, env), "nest-loop-test")
+            if not more:
+                try:
+                    for st in body[l2 + 1 :]:
+                        I.exec_stmt(st, env)
+                    ob("after/returns-a-value", False, "fell off the end")
+                except ReturnEx as r:
+                    ob("after/returns-the-accumulated-expression", isinstance(r.value, Obj), repr(r.value))
+            else:
+                I.exec_block(body[l2].body, env)
+                ob("nest-step/no-pop-from-an-empty-list", True)
+                ob("nest-step/INV2-preserved", prove(ps.pc, [], A.n == B.n, timeout_ms=5000).status == "proved", f"{A.n} vs {B.n}")
+                ob("nest-step/variant-decreases", prove(ps.pc, [], z3.And(B.n < k, B.n >= 0), timeout_ms=5000).status == "proved", f"{k} -> {B.n}")
+                ob("nest-step/accumulates-an-expression", isinstance(env.vars.get("exp"), Obj), repr(env.vars.get("exp")))
+        except PyRaise as pr:
+            ob("nest-step/no-pop-from-an-empty-list", False, f"{pr.exc.clsname} at {pr.site}")
+    finally:
+        I.contracts = saved
+    return {"obligations": obl, "labels": list(ps.labels)}
+
+
 def function_lookup(repo) -> List[Dict[str, Any]]:
     """parse_function looks the function up by the *value of the current token*, and is only entered
     on a Function token (from parse_factors' Function branch)."""
@@ -393,7 +571,7 @@ def run_all(repo) -> Dict[str, Any]:
     I = Interp(repo)
     try:
         I.load_module("mathy_core.parser")
-        for name, fn in (("next", lambda ps: stream_path(I, ps, "next")), ("eat", lambda ps: stream_path(I, ps, "eat")), ("parse_factors", lambda ps: factors_path(I, ps))):
+        for name, fn in (("next", lambda ps: stream_path(I, ps, "next")), ("eat", lambda ps: stream_path(I, ps, "eat")), ("parse_factors", lambda ps: factors_path(I, ps)), ("parse_mult", lambda ps: mult_path(I, ps))):
             try:
                 n = 0
                 for o in explore(fn):
